@@ -39,6 +39,23 @@ func checkC16(c *Ctx, r *Report, tier string) {
 	r.Rule("C16.R3", "members, distinct: the buffer comes from Conn.NodeIds() (keys of the address map); its only element writes are a pure two-index swap inside the shuffle callback; the membership call returns a fresh slice; the address book (= the membership) is written only by its legitimate writers", 4)
 	r.Rule("C16.R5", "independent placement: the order the prefix is taken from is the shuffle's — the member buffer is passed to no function that could reorder it; the proposer replaces the client's partition table on every path", 2)
 	proposerOwnsStructuredFields(c, r, "C16.R5")
+	r.Rule("C16.R6", "replica lists stay distinct and at most R after creation: a node is announced to the allocator once (only when it was not listed), and the allocator handles membership events one after another", 2)
+	nodeAnnouncedOnce(c, r, "C16.R6")
+	{
+		var loops []*ssa.Function
+		for _, f := range prodFuncs(c, "storage") {
+			isLoop := false
+			eachInstr(f, func(i ssa.Instruction) {
+				if s, ok := i.(*ssa.Select); ok && s.Blocking && inCycle(f, i) {
+					isLoop = true
+				}
+			})
+			if isLoop && f.Signature.Results().Len() == 0 && recvTypeName(f) == "Allocator" {
+				loops = append(loops, f)
+			}
+		}
+		roleLoopHandlersSequential(c, r, "C16.R6", loops)
+	}
 	r.Rule("C16.R4", "placement travels in the proposal: the proposer stores element i of the placement result into partition i's NodeIds before marshalling; the apply side never calls the placement function", 2)
 	// placement function: method returning [][]uint64 that calls Conn.NodeIds
 	var place *ssa.Function
@@ -603,6 +620,8 @@ func checkC17(c *Ctx, r *Report, tier string) {
 	r.Rule("C17.R5", "every replica reports the same partition: a restored index resets its counters on every successful return; applying a replica change always rewrites the member list (which decides whether a node counts its local index or asks a peer)", 5)
 	restoreResetsBeforeSuccess(c, r, "C17.R5")
 	replicatedWriteNotConditionalOnLocalState(c, r, "C17.R5")
+	r.Rule("C17.R6", "the node list that decides `count locally or ask a peer` is the replicated one: partitions are built on the elements of the message stored in Dataset.meta (borrowed from C14.R6)", 1)
+	borrow(c, r, "C14", "C14.R6", "C17.R6", "meta-aliasing")
 	// collector: the select loop returns error for non-nil message and ctx.Done
 	okColl := false
 	okDone := false
